@@ -856,9 +856,13 @@ def _fails_list(fails, replay_fn, also=None):
     for (f, c), (_, d, case) in sorted(fails.items()):
         e = {'fid': f, 'clause': c, 'detail': d[:600], 'case': dict(case, fid=f, clause=c), 'replay_fn': replay_fn}
         if also is not None:
-            # every failing case of the clause, in enumeration order
+            # every failing case of the clause, in enumeration order; the reported (smallest) case is always a
+            # member: when it lies behind the cap it takes the last place
             every = also.get((f, c)) or {0: case}
-            e['also'] = [dict(every[k], fid=f, clause=c) for k in sorted(every)][:ALSO_CAP]
+            every = [dict(every[k], fid=f, clause=c) for k in sorted(every)]
+            e['also'] = every[:ALSO_CAP]
+            if e['case'] not in e['also']:
+                e['also'] = every[:ALSO_CAP - 1] + [e['case']]
         out.append(e)
     return out
 
